@@ -560,9 +560,9 @@ func malformed(r *hk.Run) {
 	ex := &Exec{}
 	defer ex.close()
 	for _, l := range []string{
-		"fetch 00", "cfg mem", "cfg faulty x mem // mem@x", "cfg faulty nb mem // mem", "cfg faulty nb mem // mem@nb@",
+		"fetch 00", "cfg mem", "cfg faulty x mem // mem@x", "cfg faulty nb // mem@", "cfg faulty nb@ mem // mem@nb@",
 		"cfg faulty nb mem // mem@nb", "stat", "stat 00 00", "rm", "recv 00", "enum 00", "pending 1", "frob",
-		"gatestat 0 1 -", "gatestat 2 3 2", "gatestat 2 2 x", "fetch zz", "pending",
+		"gatestat 0 1 -", "gatestat 2 3 2", "gatestat 2 2 x", "fetch zz", "pending", "cfg", "fetch",
 	} {
 		r.Op(l, hk.Guard(func() string { return ex.Do(strings.Fields(l)) }))
 	}
